@@ -8,6 +8,7 @@ EXPLANATION = (
 
 
 def check(ctx, prog):
+    dispatch.rule_swallowed_raise(ctx, prog)  # scope: no division by a possibly-zero quantity behind a function pointer (the error is discarded, the status is arbitrary)
     model.rule_posted_kept(ctx, prog)  # every posted constraint stays posted (who may write the list of constraints)
     propagators.rule_prop_effects(ctx, prog)  # a filtering function never stores into its parameters (a view of the problem's table: the next call sees another constraint)
     capacity.rule_value_width(ctx, prog)  # domain values and view offsets have one integer type in all arrays that carry them
